@@ -3,7 +3,7 @@
 // the source files the property is anchored in, pinned whole (test modules, comments and layout apart): a change to anything in
 // them that is neither under contract nor pinned by name still makes this unit undecided, which sends the check to the
 // property's bounded sweep of the real code
-//@pinfile file=cfgrammar/src/lib/yacc/grammar.rs sha=3ccc24d5c8f4f7f7
+//@pinfile file=cfgrammar/src/lib/yacc/grammar.rs sha=b2daa9fc80630f0d
 //@pinfile file=cfgrammar/src/lib/idxnewtype.rs sha=67617d080f70c68e
 //@pinfile file=lrtable/src/lib/pager.rs sha=2691abd40282da88
 //@pinfile file=lrtable/src/lib/stategraph.rs sha=9ccc3fac48635c00
